@@ -1,7 +1,7 @@
 (* C02 — Parsing yields exactly the document the text denotes.
    Pinned statements only.  Model: Model/Entity.v (src/entity.rs), Model/Builder.v (src/parse.rs). *)
 From Coq Require Import List NArith.
-From XotV Require Import Model.Base Model.Interning Model.Fullname Model.Entity Model.Builder Model.Encoding Proofs.EntityProofs Proofs.BuilderProofs Proofs.EncodingProofs.
+From XotV Require Import Model.Base Model.Interning Model.Fullname Model.Entity Model.Builder Model.Encoding Proofs.EntityProofs Proofs.BuilderProofs Proofs.EncodingProofs Proofs.DeclProofs.
 Import ListNotations.
 Open Scope N_scope.
 
@@ -72,3 +72,25 @@ Example C02_chosen_label_example :
      = Some s_utf8_label
   /\ chosen_label [255; 254; 60; 0; 112; 0] None = None.
 Proof. vm_compute. repeat split. Qed.
+
+(* ---------- "optional XML declaration": the spelling the tokenizer does not recognise ----------
+   `<?xml` followed by a tab or a line end reaches src/parse.rs as a processing-instruction token; its content is read by
+   declaration_version (Model/Builder.v).  EVERY well-formed content — version, then optionally encoding, then optionally
+   standalone, each  name S? '=' S? quote value quote  with any white space, either quote per value, white space between them
+   and at the end, and values that are a VersionNum, an EncName, yes / no — is accepted, and what is handed back is the version
+   value with the span it has in the source (so that version 1.0 passes and every other one is UnsupportedVersion there). *)
+Theorem C02_declaration_content_is_read_in_every_spelling :
+  forall d start stop, decl_ok d ->
+    declaration_version {| ss_text := decl_text d; ss_span := {| sp_start := start; sp_end := stop |} |}
+    = Some {| ss_text := d_version d;
+              ss_span := {| sp_start := start + 7 + (slen (d_w1 d) + 1 + slen (d_w2 d) + 1);
+                            sp_end := start + 7 + (slen (d_w1 d) + 1 + slen (d_w2 d) + 1) + slen (d_version d) |} |}.
+Proof. exact declaration_version_spec. Qed.
+Print Assumptions C02_declaration_content_is_read_in_every_spelling.
+
+(* non-vacuity: version = '1.0' \n encoding="UTF-8" \t standalone='no' followed by a space *)
+Example C02_declaration_spelling_example :
+  decl_ok {| d_w1 := [32]; d_w2 := [32]; d_dq := false; d_version := [49; 46; 48];
+             d_enc := Some ([10], [], [], true, [85; 84; 70; 45; 56]);
+             d_sd := Some ([9], [], [], false, [110; 111]); d_tail := [32] |}.
+Proof. unfold decl_ok, opt_ok, all_s. cbn. repeat split; discriminate. Qed.
